@@ -19,20 +19,20 @@ theorem now_mono_run : ∀ (evs : List Ev) (s : State), s.now ≤ (Sys.run s evs
     rw [this]
     rcases step_now s ev with e | e <;> omega
 
-/-- an eventuality of every long enough run happens by the time the bound is passed -/
-theorem ev_bound {P : State → Prop} {Q : State → Prop} (s : State) (X : Nat)
-    (hev : ∀ evs', RunP P s evs' → X < (Sys.run s evs').now → ∃ a b, evs' = a ++ b ∧ Q (Sys.run s a))
-    (evs : List Ev) (hr : RunP P s evs) (hnow : X < (Sys.run s evs).now) :
+/-- an eventuality of every long enough prefix of a run happens by the time the bound is passed -/
+theorem ev_bound {P : State → Prop} {Q : State → Prop} (s : State) (X : Nat) (evs : List Ev)
+    (hev : ∀ c d, evs = c ++ d → RunP P s c → X < (Sys.run s c).now → ∃ a b, c = a ++ b ∧ Q (Sys.run s a))
+    (hr : RunP P s evs) (hnow : X < (Sys.run s evs).now) :
     ∃ a b, evs = a ++ b ∧ Q (Sys.run s a) ∧ (Sys.run s a).now ≤ max s.now (X + 1) := by
   by_cases hs : s.now ≤ X + 1
   · obtain ⟨c, d, e1, e2⟩ := run_reaches (X + 1) evs s hs (by omega)
     obtain ⟨hrc, _⟩ := RunP.split c d s (by rw [← e1]; exact hr)
-    obtain ⟨a, b', e3, hq⟩ := hev c hrc (by omega)
+    obtain ⟨a, b', e3, hq⟩ := hev c d e1 hrc (by omega)
     refine ⟨a, b' ++ d, by rw [e1, e3, List.append_assoc], hq, ?_⟩
     have := now_mono_run b' (Sys.run s a)
     rw [← run_append, ← e3, e2] at this
     omega
-  · obtain ⟨a, b, e1, hq⟩ := hev [] (RunP.head hr) (by show X < s.now; omega)
+  · obtain ⟨a, b, e1, hq⟩ := hev [] evs rfl (RunP.head hr) (by show X < s.now; omega)
     have ha : a = [] := by
       cases a with
       | nil => rfl
